@@ -167,6 +167,12 @@ StateRecord(R, L) ==
      \* ApplyClientFiltering(cid, address): 4*who + 2*[own values] + [own services]
      ap |-> [i \in 1..Len(U.cids) |-> [j \in 1..Len(U.addrs) |->
                 EffCode(Effective(R, L, Global, U.cids[i], U.addrs[j]))]],
+     \* Find(8-byte mac of the universe written with colons), IPv6 reading (0 for other ids)
+     fx |-> [i \in 1..Len(U.ids) |->
+                IF Kind(U.ids[i]) = "mac" THEN NameIdx(FindMacTextV6(R, U.ids[i]).name) ELSE 0],
+     \* FindLoose(ClientID, address without its zone): admissible clients
+     lo |-> [i \in 1..Len(U.cids) |-> [j \in 1..Len(U.addrs) |->
+                {NameIdx(c.name) : c \in LooseSet(R, L, U.cids[i], Bits(U.addrs[j]))}]],
      e  |-> IF Sampled(Key(R, L))
             THEN EdgesAdd(R, L) \cup EdgesUpd(R, L) \cup EdgesRem(R, L) \cup EdgesLease(R, L) \cup EdgesLoad(R, L)
             ELSE {},
@@ -237,6 +243,18 @@ ResolvesToOwnerOrNone ==
       \/ r = NoClient /\ (Kind(id) \in {"cid", "mac"} => id \notin IdsOf(clients))
       \/ r \in clients /\ (Kind(id) \in {"cid", "mac", "net"} => id \in r.ids)
                        /\ (Kind(id) = "ip" /\ id \in IdsOf(clients) => id \in r.ids)
+
+\* The query log / statistics attribute a request to the client the filtering
+\* attributes it to; the only licence is the zone the address has lost.
+LooseFollowsPrecedence ==
+    \A q \in Lookups :
+      LET cid == q[1]  n == Bits(q[2])
+          S == LooseSet(clients, leases, cid, n)
+          twins == {c \in clients : \E id \in c.ids : Kind(id) = "ip" /\ Bits(id[2]) = n /\ Zone(id[2]) # 0}
+      IN /\ S # {} /\ \A x \in S : x = NoClient \/ x \in clients
+         /\ (twins = {} \/ <<"ip", n, 0>> \in IdsOf(clients) \/ (cid # NoId /\ cid \in IdsOf(clients)))
+               => S = {Resolve(clients, leases, cid, n)}
+         /\ Resolve(clients, leases, cid, n) \in S \/ S \subseteq twins
 
 \* ---------------------------------------------------------------- universes
 (***************************************************************************)
